@@ -2,5 +2,4 @@ package main
 
 import "github.com/google/inverting-proxy/zz_verif/vx"
 
-func c17Scenarios(th bool) []vx.Scenario { return nil }
 func c19Scenarios(th bool) []vx.Scenario { return nil }
